@@ -5,6 +5,7 @@ import (
 	"github.com/metrico/qryn/reader/prof/parser"
 	shared2 "github.com/metrico/qryn/reader/prof/shared"
 	v1 "github.com/metrico/qryn/reader/prof/types/v1"
+	"strings"
 )
 
 func PlanLabelNames(scripts []*parser.Script) (shared.SQLRequestPlanner, error) {
@@ -113,13 +114,12 @@ func PlanAnalyzeQuery(script *parser.Script) (shared.SQLRequestPlanner, error) {
 }
 
 func populateTypeId(script *parser.Script, tId *shared2.TypeId) {
-	script.Selectors = append(script.Selectors, []parser.Selector{
-		{"__name__", "=", parser.Str{"`" + tId.Tp + "`"}},
-		{"__period_type__", "=", parser.Str{"`" + tId.PeriodType + "`"}},
-		{"__period_unit__", "=", parser.Str{"`" + tId.PeriodUnit + "`"}},
-		{"__sample_type__", "=", parser.Str{"`" + tId.SampleType + "`"}},
-		{"__sample_unit__", "=", parser.Str{"`" + tId.SampleUnit + "`"}},
-	}...)
+	// one matcher for the whole type id: the sample type and the sample unit have to be found in ONE
+	// element of sample_types_units
+	strTypeId := strings.Join([]string{tId.Tp, tId.SampleType, tId.SampleUnit, tId.PeriodType, tId.PeriodUnit}, ":")
+	script.Selectors = append(script.Selectors, parser.Selector{
+		Name: "__profile_type__", Op: "=", Val: parser.Str{Str: "`" + strTypeId + "`"},
+	})
 }
 
 func streamSelectorPlanners(scripts []*parser.Script) []shared.SQLRequestPlanner {
